@@ -199,6 +199,8 @@ type Explorer struct {
 	allowPanic  bool
 	ufApps      map[string][]ufApp // per uninterpreted function: applications made on this path
 	allocTotal  int64
+	lastRecovered string
+	cells       int64
 	allocBudget int64
 }
 
@@ -233,7 +235,8 @@ func (e *Explorer) reset(w workItem) {
 	e.forks = 0
 	e.allowPanic = e.run.AllowPanic
 	e.ufApps = map[string][]ufApp{}
-	e.allocTotal, e.allocBudget = 0, 0
+	e.allocTotal, e.allocBudget, e.cells = 0, 0, 0
+	e.lastRecovered = ""
 }
 
 func sanitize(name string) string {
